@@ -212,3 +212,13 @@ MUTANTS += [
     {"id": "C14-inv-carry-reset-late", "prop": "C14", "expect": "",
      "edits": [("src/encoder.rs", "            if self.size == 3 {\n                let [s0, s1, s2] = self.buffer;", "            if self.size == 4 {\n                let [s0, s1, s2] = self.buffer;")]},
 ]
+
+
+MUTANTS += [
+    {"id": "C14-read-drops-error-after-progress", "prop": "C14", "expect": "LEN-ERROR",
+     "edits": [("src/decoder.rs", "                self.buffer_fill()?;\n", "                match self.buffer_fill() {\n                    Err(_) if out_offset > 0 => break,\n                    result => result?,\n                }\n")]},
+    {"id": "C14-read-ignores-fill-result", "prop": "C14", "expect": "LEN-ERROR",
+     "edits": [("src/decoder.rs", "                self.buffer_fill()?;\n", "                if self.buffer_fill().is_err() {\n                    break;\n                }\n")]},
+    {"id": "C14-benign-fill-match-propagate", "prop": "C14", "benign": True,
+     "edits": [("src/decoder.rs", "                self.buffer_fill()?;\n", "                match self.buffer_fill() {\n                    Ok(()) => {}\n                    Err(error) => return Err(error),\n                }\n")]},
+]
